@@ -383,3 +383,49 @@ def rule_empty(ctx, R):
                           "stored collection shrunk by %s (line %d) but no emptiness test followed by removal of the key is reachable: an emptied collection would keep existing as a key"
                           % (short, b.bb_line(i)), b.loc(i))
     R.floor("shrink_sites", n)
+
+
+# ---- R-WRITE-MUST -------------------------------------------------------------------------------------
+# commands whose success always writes: they create the key when it is missing, whatever the arguments
+ALWAYS_WRITES = ("APPEND", "INCR", "DECR", "INCRBY", "DECRBY", "LPUSH", "RPUSH", "XADD")
+
+
+def rule_write_must(ctx, R):
+    """a create-or-update command that answers success has written: in the engine method behind it
+    every path to an `Ok(..)` result passes a dataset mutation (a shortcut that answers from a
+    read path -- `APPEND k ""` answered with STRLEN -- leaves a missing key missing)"""
+    import rules_zset
+    arms = dispatch_arms(ctx)
+    dm = shared.direct_mutators(ctx)
+    eng = shared.engine_api(ctx.prog)
+    methods = {}
+    for n_ in ALWAYS_WRITES:
+        a = arms.get(n_)
+        if a is None:
+            continue
+        for fn in a["reach"]:
+            if fn in eng and fn in dm:
+                methods.setdefault(fn, []).append(n_)
+    n = 0
+    for fn in sorted(methods):
+        b = ctx.prog.bodies[fn]
+        sites, stores = dm[fn]
+        mut_blocks = {i for (i, k, f) in sites} | {i for (i, st) in stores}
+        # a mutation made by a callee that is itself a mutator (incr -> incr_by)
+        mut_blocks |= {i for i, t in b.calls() if callee(t) in dm and callee(t) != fn}
+        # a loop that mutates once per element counts as a mutation (the handlers refuse an empty
+        # element list by arity, so the loop runs at least once)
+        for h, body in cfg.loops(b).items():
+            if body & mut_blocks:
+                mut_blocks.add(h)
+        # the function's result is also what a callee hands back (`return self.strlen(db, &key)`)
+        tails = [i for i, t in b.calls() if t["d"]["l"] == 0 and not t["d"]["p"] and not re.search(r"from_residual$", callee(t)) and callee(t) not in dm]
+        for k, e in enumerate(rules_zset.ok_blocks(b) + tails):
+            n += 1
+            p = cfg.path_avoiding(b, [0], [e], mut_blocks) if e not in mut_blocks else None
+            R.inst(fn, "ok-return#%d" % k, {"method": fn.split("::")[-1], "commands": methods[fn], "at": b.loc(e), "passes_a_mutation_on_every_path": p is None})
+            if p is not None:
+                R.finding(fn, "ok-return:without-writing",
+                          "%s (behind %s) can answer success (line %d) on a path that changes nothing: the command creates the key when it is missing, so a success reply without a write leaves the dataset different from the one prescribed" % (
+                              fn.split("::")[-1], "/".join(methods[fn]), b.bb_line(e)), b.loc(e), ["bb%d line %d" % (x, b.bb_line(x)) for x in p][-8:])
+    R.floor("always_writing_methods_ok_returns", n)
